@@ -258,8 +258,8 @@ pub fn call_on_8mib(t: Target, text: &str) -> Outcome {
 pub const MB: [&str; 14] = ["é", "日本", "😀", "e\u{301}", "٣", "\u{a0}", "\u{2028}", "İ", "ß", "\u{feff}", "“", "\u{fffd}", "\u{3000}", "Ω"];
 /// the probes used by the exhaustive `edits` part (one per UTF-8 length + white space)
 /// ('İ' is one of the few characters whose lower-case form has another UTF-8 length: offsets found in a case-folded copy
-/// of a text do not fit the text)
-pub const MB_EDIT: [char; 5] = ['é', 'İ', '日', '😀', '\u{a0}'];
+/// of a text do not fit the text; U+212A KELVIN SIGN and U+1E9E are of the few whose lower-case form is SHORTER)
+pub const MB_EDIT: [char; 7] = ['é', 'İ', '\u{212a}', '日', '😀', '\u{a0}', '\u{1e9e}'];
 
 const V_GRL: &[&str] = &[
     " ", "\n", "rule", "when", "then", "{", "}", "(", ")", "\"", "==", "&&", "||", "!", ";", "=", ".", ",", "X", "User.Age", "a.b", "1", "0", "42", "3.14", "-1", "true", "false",
@@ -1134,7 +1134,7 @@ fn gen_edit(s: &mut Src, exh: u32) -> (Target, usize, String) {
     let seed = sd[s.below(sd.len())];
     // 0 truncate, 1 delete a character, 2 replace a number by an extreme one, 3 drop a bracket group or its content,
     // 4.. multi-byte insertion (then replacement)
-    let nops = if exh >= 2 { 4 + 2 * MB_EDIT.len() } else { 6 };
+    let nops = if exh >= 2 { 4 + 2 * MB_EDIT.len() } else { 7 };
     let op = s.below(nops);
     let chars: Vec<char> = seed.chars().collect();
     let text = match op {
@@ -1192,7 +1192,7 @@ pub fn run_edits(s: &mut Src, ctx: &mut Ctx) -> Verdict {
 
 // ------------------------------------------------------------------ wide names, then one edit
 
-const WIDE_POOL: [char; 14] = ['a', 'Z', '0', '_', '-', 'é', 'ß', '日', '😀', 'İ', '\u{a0}', 'Ω', '\u{301}', '“'];
+const WIDE_POOL: [char; 16] = ['a', 'Z', '0', '_', '-', 'é', 'ß', '日', '😀', 'İ', '\u{a0}', 'Ω', '\u{301}', '“', '\u{212a}', '\u{1e9e}'];
 
 /// A valid text whose quoted names and strings were replaced by long runs of characters of mixed UTF-8 width (so
 /// that, further on in the text, hardly any byte offset reckoned from another one falls on a character boundary),
